@@ -63,7 +63,7 @@ class World:
     def __init__(self, chooser=None, horizon: float = 60.0, deviations: bool = True,
                  slowcpu: bool = False, lazy_exec: bool = False, max_batches: int = 50000,
                  early: bool = True, reorder: bool = True, hold: bool = True, op_anywhere: bool = False,
-                 hold_kinds=None):
+                 hold_kinds=None, op_dedup: bool = False):
         self.loop = VLoop()
         self.chooser = chooser or DefaultChooser()
         self.horizon = horizon
@@ -74,6 +74,10 @@ class World:
         self.opt_hold = hold
         self.op_anywhere = op_anywhere
         self.hold_kinds = hold_kinds      # None = every kind may be held; else only these kinds
+        # op_dedup: a held user call is offered again only when the harness' abstract state (state_fn) changed since
+        # it was last offered (boundaries of idle periodic work are equivalent placements) or a time-out just fired
+        self.op_dedup = op_dedup
+        self._op_offer_key = None
         self.lazy_exec = lazy_exec
         self.max_batches = max_batches
         self.pending: list[EnvEvent] = []
@@ -251,11 +255,17 @@ class World:
                         options.append((f'lose:{first.key}', 1, ('lose', first)))
             else:
                 options.append(('adv', 0, ('adv',)))
-            for ev in self._heads(True):
+            held_heads = self._heads(True)
+            op_fresh = True
+            if held_heads and self.op_dedup and self.state_fn is not None and not self._offer_held:
+                key = self.state_fn()
+                op_fresh = key != self._op_offer_key
+                self._op_offer_key = key
+            for ev in held_heads:
                 # a held network event comes back around a one-shot deadline; a held *user call* may come at
                 # any later boundary (user code runs whenever it likes)
                 if self._offer_held or (ev.kind == 'op' and self.op_anywhere and not released_here
-                                        and not self._quiet_tick):
+                                        and not self._quiet_tick and op_fresh):
                     options.append((f'unhold:{ev.key}', 0, ('rel', ev)))
             c = self._choose('boundary', options)
             label, _cost, action = options[c]
